@@ -153,8 +153,27 @@ def run_freq(case: dict) -> Result:
         truth[uni[i]] += c
     n_total = sum(truth.values())
     whole = _mk(case)
-    _feed(whole, uni, stream)
     comp = type(whole).__name__
+    # feed with queries interleaved (a sketch that caches answers must invalidate them on every update)
+    sofar = Counter()
+    step = max(1, len(stream) // 5)
+    for pos, (i, c) in enumerate(stream):
+        if c == 1:
+            whole.add(uni[i])
+        else:
+            whole.add(uni[i], c)
+        sofar[uni[i]] += c
+        if pos % step == 0:
+            for x in uni[: 6]:
+                res.count("queries_checked")
+                if kind == "bloom" and sofar[x] > 0 and not whole.contains(x):
+                    res.add("false-negative", comp, "mid-stream-after-earlier-query", f"item {x!r}")
+                elif kind == "cms" and whole.estimate(x) < sofar[x]:
+                    res.add("underestimate", comp, "mid-stream-after-earlier-query", f"estimate({x!r})={whole.estimate(x)} < {sofar[x]}")
+                elif kind == "topk" and x in whole and not (0 <= whole.estimate(x) - sofar[x] <= whole.estimate_with_error(x).error):
+                    res.add("error-bound", comp, "mid-stream-after-earlier-query", f"item {x!r}: estimate {whole.estimate(x)} true {sofar[x]}")
+                elif kind == "hll":
+                    whole.cardinality()
 
     if whole.item_count != n_total:
         res.add("item-count", comp, "add-only", f"item_count={whole.item_count} true={n_total}")
@@ -240,6 +259,14 @@ def run_freq(case: dict) -> Result:
         a, b = _mk(case), _mk(case)
         _feed(a, uni, stream[:split])
         _feed(b, uni, stream[split:])
+        # query both operands before the merge: answers computed (or cached) earlier must not survive it
+        for x in _queries(case, uni):
+            if kind == "bloom":
+                a.contains(x), b.contains(x)
+            elif kind == "cms":
+                a.estimate(x), b.estimate(x)
+        if kind == "hll":
+            a.cardinality(), b.cardinality()
         b_before = copy.deepcopy(b)
         a.merge(b)
         shape = "merge-vs-concatenated"
